@@ -650,13 +650,13 @@ fn fifo_full_lot_cost(base: &[Tx], tk: &str) -> Rat {
 }
 
 fn run(ctx: &Ctx) {
-    if !ctx.run_prop("plain", RULE, ctx.cases(1500, 140_000), strat_plain, check) {
+    if !ctx.run_prop("plain", RULE, ctx.cases(1500, 420_000), strat_plain, check) {
         return;
     }
-    if !ctx.run_prop("with_splits", RULE, ctx.cases(1000, 100_000), strat_split, check) {
+    if !ctx.run_prop("with_splits", RULE, ctx.cases(1000, 300_000), strat_split, check) {
         return;
     }
-    ctx.run_prop("with_own_events", RULE, ctx.cases(800, 80_000), strat_events, check);
+    ctx.run_prop("with_own_events", RULE, ctx.cases(800, 240_000), strat_events, check);
 }
 
 fn replay(name: &str, case: &Value) -> Option<Verdict> {
